@@ -17,7 +17,7 @@ What is transcribed (Go name -> definition here):
   calls `FreeContiguous(firstSector, sectorsAllocated)`)       -> `wnsPhase1/2/3`, `wnsPhases`, `writeToNewSectors`
 * `insertSectorsContiguous` (panics on a non-hole)             -> `insertSectors`
 * `writeToSectors`, `WriteAt`                                  -> `writeToSectors`, `writeLoop`, `writeAt`
-* `GetNextRegionOffset`                                        -> `seekData`, `seekHoleLoop`, `seek`
+* `GetNextRegionOffset`                                        -> `seekData`, `seekHoleAdvance`, `seekHoleLoop`, `seek`
 * `Close`, `Len`, `NewFile`                                    -> `close`, `File.size`, `Op.new`
 
 Environment (step inputs, never chosen by the model):
@@ -450,21 +450,26 @@ def seekData (c : Cfg) (f : File) (e : Env) (off : Nat) : Env × Except Err Nat 
           | some j => .ok (min (k * c.ss) j)
           | none => .ok (k * c.ss))
 
+/-- first half of one iteration of the `Hole` loop of `GetNextRegionOffset`:
+skip the run of data sectors `off` lies in; returns `(sectorIndex, off)`. -/
+def seekHoleAdvance (c : Cfg) (f : File) (off : Nat) : Nat × Nat :=
+  if off / c.ss < f.sectors.length ∧ f.sectors.getD (off / c.ss) 0 ≠ 0 then
+    (nextZero (f.sectors.drop (off / c.ss + 1)) (off / c.ss + 1),
+      nextZero (f.sectors.drop (off / c.ss + 1)) (off / c.ss + 1) * c.ss)
+  else (off / c.ss, off)
+
 def seekHoleLoop (c : Cfg) (f : File) : Nat → Env → Nat → Env × Except Err Nat
   | 0, e, _ => (e, .error .panic)
   | fuel + 1, e, off =>
-    let idx0 := off / c.ss
-    let skip := decide (idx0 < f.sectors.length) && decide (f.sectors.getD idx0 0 ≠ 0)
-    let idx := if skip then nextZero (f.sectors.drop (idx0 + 1)) (idx0 + 1) else idx0
-    let off1 := if skip then idx * c.ss else off
-    if off1 ≥ f.size then (e, .ok f.size)
+    let a := seekHoleAdvance c f off
+    if a.2 ≥ f.size then (e, .ok f.size)
     else
       match e.holeSeek with
       | (e1, false) => (e1, .error .hole)
       | (e1, true) =>
-        match f.hole.nextHole off1 with
-        | none => (e1, .ok off1)
-        | some j => if j < (idx + 1) * c.ss then (e1, .ok j) else seekHoleLoop c f fuel e1 j
+        match f.hole.nextHole a.2 with
+        | none => (e1, .ok a.2)
+        | some j => if j < (a.1 + 1) * c.ss then (e1, .ok j) else seekHoleLoop c f fuel e1 j
 
 def seek (c : Cfg) (f : File) (e : Env) (off : Int) (data : Bool) : Env × Except Err Nat :=
   if off < 0 then (e, .error .invalid)
